@@ -1,15 +1,12 @@
 """C05 -- every user-type reference is resolved per AIDL scoping, or reported unknown (partial; engine K)."""
 import ksupport
+import mir
 import native
+import travcheck as tc
 from common import src_line
 
 LEVEL = 'model_checking'
 SPECS = [
-    ('c05::c05_walk_mut_return_d2', 'walk_types_mut offers every type node (25 shapes of depth <= 2) exactly once: return type', 'quick', ['c05']),
-    ('c05::c05_walk_mut_arg_d2', 'argument type', 'quick', ['c05']),
-    ('c05::c05_walk_mut_field_d2', 'parcelable field', 'quick', ['c05']),
-    ('c05::c05_walk_mut_const_d2', 'constant', 'thorough', ['c05']),
-    ('c05::c05_walk_mut_spine_d3', 'depth-3 spines', 'thorough', ['c05']),
     ('c05::c05_builtin_tables', 'built-in tables: names round-trip, only ParcelFileDescriptor may be written qualified', 'quick', ['c05']),
     ('c05::c05_resolve_no_imports', 'resolve_type without imports/forward declarations: 12 names (built-ins, qualified names, near-misses): kind and exactly one Error on the name or none', 'quick', ['c05']),
     ('c05::c05_resolve_leaves_classified_alone', 'already classified types are not touched', 'quick', ['c05']),
@@ -19,9 +16,21 @@ SPECS = [
 def check(run):
     run.functions += ['traverse::walk_types_mut (%s)' % src_line('src/traverse.rs', 'fn walk_types_mut'), 'validation::resolve_type (%s)' % src_line('src/validation.rs', 'fn resolve_type('),
                       'ast::AndroidTypeKind::{from_name, from_qualified_name, get_name, get_qualified_name, can_be_qualified}']
-    run.bounds += ['type shapes to depth 2 (all 25) / depth-3 spines; 12-name pool; empty import and forward-declaration sets; unwind 4 / 34 (string compares)']
+    run.bounds += ['type walker: any depth by induction (engine T) and depth 2 unsummarised; 12-name pool; empty import and forward-declaration sets; unwind 4 / 34 (string compares)']
     run.outside += ['matching against a NON-EMPTY import / forward-declaration set (HashSet<String> iteration + format!): not encodable under CBMC (one insert: > 14 min); covered only by the native sweep',
                     'the key -> kind map over all parsed files']
     run.assumptions += ['stub: std::hash::RandomState::new -> fixed keys (empty containers only)', 'stub: alloc::fmt::format -> String::new()']
     run.extra['explanation'] = 'Kani/CBMC: every type node reaches the resolver exactly once; built-in tables; resolver on import-free files; native sweep (67 references incl. imports, near-misses, imported built-ins) for the rest.'
     ksupport.decide(run, 'C05', SPECS, {'c05': native.sweep_c05})
+    # every type node, at any depth, reaches the resolver exactly once: engine T on walk_types_mut + the closure resolve_types hands to it
+    import c15
+    c15.check(run, which=('step_types_mut', 'deep_types_mut', 'outer_types_mut'), native_bad=native.sweep_c05()[1])
+    try:
+        S = tc.Setup()
+        ok, detail = tc.closure_calls(S, 'resolve_types', r'resolve_type$')
+        if ok:
+            run.holds('the closure resolve_types hands to the walker calls resolve_type on exactly the node it is given', 'T', bound='MIR of resolve_types::{closure#0}')
+        else:
+            run.violated('resolve_types closure calls resolve_type on its node', 'T', 'resolve-closure', {'detail': detail}, True)
+    except mir.Unsupported as e:
+        run.inconclusive('resolve_types closure', 'T', str(e))
